@@ -167,6 +167,42 @@ def url_summaries():
                 outs += any_step(ex, s, c[0], c[1], kind)
         return outs
 
+    RANK = z3.Function('str.rank', StrSort, z3.IntSort())    # some total order of the strings (the real one is lexicographic: an abstraction)
+
+    @reg(r' as Iterator>::collect::<(std::collections::)?BTreeMap<')
+    def collect_btree(ex, st, fn, argv):
+        """pairs collected into an ordered map: a later pair with an equal key replaces the value, iteration is in key order.
+        The order is abstract (an injective rank); which concrete texts realise it is left to the native replay."""
+        it = argv[0] if isinstance(argv[0], Iter) else deref(ex, st, argv[0])
+        if not isinstance(it, Iter):
+            return NotImplemented
+        pairs = it.items[it.pos:]
+        it.pos = len(it.items)
+        front = [(st, [])]
+        for pr in pairs:
+            nxt = []
+            k, v = pr.fields[0], pr.fields[1]
+            for (s0, ents) in front:
+                # equal to an existing key: the value is replaced in place
+                rest = s0
+                for i, (ek, ev) in enumerate(ents):
+                    s_eq = rest.fork()
+                    s_eq.pc.append(ek.s == k.s)
+                    if ex.feasible(s_eq):
+                        nxt.append((s_eq, ents[:i] + [(ek, v)] + ents[i + 1:]))
+                    rest.pc.append(ek.s != k.s)
+                    rest.pc.append(RANK(ek.s) != RANK(k.s))
+                if not ex.feasible(rest):
+                    continue
+                for pos in range(len(ents) + 1):
+                    s_p = rest.fork() if pos < len(ents) else rest
+                    for j, (ek, ev) in enumerate(ents):
+                        s_p.pc.append(RANK(ek.s) < RANK(k.s) if j < pos else RANK(k.s) < RANK(ek.s))
+                    if ex.feasible(s_p):
+                        nxt.append((s_p, ents[:pos] + [(k, v)] + ents[pos:]))
+            front = nxt
+        return [(s_, Iter([Agg({0: ek, 1: ev}, 'tuple') for (ek, ev) in ents])) for (s_, ents) in front]
+
     @reg(r'^<Url as Clone>::clone$')
     def url_clone(ex, st, fn, argv):
         return [(st, Agg({}, 'UrlCopy', 'url-copy'))]
